@@ -483,3 +483,37 @@ Definition powerloss_atomic (s0 : dstate) (ops : list kop) target old new : Prop
   forall k : nat,
     pl_read (drun (firstn k ops) s0) target = old \/
     pl_read (drun (firstn k ops) s0) target = Some new.
+
+(* ------------------------------------------------------------------ the decoder in stages
+   storage.load = is_file?  ->  gzip.open(...).read()  ->  StoredState.model_validate_json.
+   Both libraries are oracles; their failure classes are enumerated per stage. *)
+Inductive gz_outcome :=
+| GzOSError              (* not a gzip file, bad CRC/length (gzip.BadGzipFile), read error *)
+| GzEOF                  (* EOFError: stream ends before the end-of-stream marker *)
+| GzZlib                 (* zlib.error: corrupt deflate data *)
+| GzOk (payload : bytes).
+Inductive js_outcome (A : Type) :=
+| JsValueError           (* bad UTF-8, not JSON, wrong schema: pydantic ValidationError *)
+| JsOk (a : A).
+Arguments JsValueError {A}. Arguments JsOk {A} a.
+
+Definition decode_stages {A} (gunzip : bytes -> gz_outcome) (validate : bytes -> js_outcome A)
+           (b : bytes) : decode_outcome A :=
+  match gunzip b with
+  | GzOSError => DOSError
+  | GzEOF => DEOFError
+  | GzZlib => DZlibError
+  | GzOk p => match validate p with JsValueError => DValueError | JsOk a => DOk a end
+  end.
+
+(* storage.load applied to what is found under the name (None: no regular file there) *)
+Definition load_file {A} (gunzip : bytes -> gz_outcome) (validate : bytes -> js_outcome A)
+           (content : option bytes) : res exn (option A) :=
+  match content with
+  | None => load NotAFile
+  | Some b => load (decode_stages gunzip validate b)
+  end.
+
+(* the session the core starts with: the restored one, or the defaults *)
+Definition session_of {A} (default : A) (r : res exn (option A)) : A :=
+  match r with Ok (Some a) => a | _ => default end.
